@@ -99,3 +99,30 @@ def run_states(task, fn, prop):
                         "evaluating the invariant raised: " + " | ".join(tb[-3:]),
                         (k, nspikes(masks)))
     return r
+
+
+# ----------------------------------------------------------------------------
+# mixed-rate triples: the regime in which MRTS='auto' matters for coincidences
+# ----------------------------------------------------------------------------
+def mixed_rate_triples(ks=(8, 10), d=2, shard=0, nshards=1):
+    """Triples (a, b, c): a and b range over all trains with at most d spikes at
+    clock k (long ISIs -> large pooled threshold), c over {empty, every tick,
+    every second tick} (a dense train pulls the pooled threshold down).  On a
+    lattice of spacing U the thresholded interpolation only changes a coincidence
+    when MRTS/4 > U; the pair-wise and the pooled automatic thresholds straddle
+    that value only for such mixed-rate lists."""
+    idx = 0
+    for k in ks:
+        ms = lattice.masks_for(k, d)
+        full = (1 << (k + 1)) - 1
+        even = sum(1 << i for i in range(0, k + 1, 2))
+        for c in (0, full, even):
+            for a in ms:
+                for b in ms:
+                    if idx % nshards == shard:
+                        yield k, (a, b, c)
+                    idx += 1
+
+
+def mixed_rate_count(ks=(8, 10), d=2):
+    return sum(3 * len(lattice.masks_for(k, d)) ** 2 for k in ks)
